@@ -273,16 +273,17 @@ fn main() {
     let mut files_processed = 0u64;
     let home = std::env::current_dir().unwrap();
 
-    // cases 0 and 1 are fixed probes (a good grammar named `..lalrpop`; process_dir on a file)
-    for k in 0..opts.n + 2 {
-        let forced: Option<u8> = if k < 2 { Some(k as u8) } else { None };
+    // cases 0..2 are fixed probes (a good grammar named `..lalrpop`; process_dir on a file; process_file
+    // on a directory whose output path already exists)
+    for k in 0..opts.n + 3 {
+        let forced: Option<u8> = if k < 3 { Some(k as u8) } else { None };
         let case = root.join(format!("c{k}"));
         let w = case.join("w");
         let ext = case.join("ext");
         let envout = case.join("envout");
         fs::create_dir_all(&w).unwrap();
         fs::create_dir_all(&ext).unwrap();
-        let mode = match if forced == Some(0) { 8 } else if forced == Some(1) { 0 } else { rng.below(10) } {
+        let mode = match if forced == Some(0) || forced == Some(2) { 8 } else if forced == Some(1) { 0 } else { rng.below(10) } {
             0..=3 => "dir",
             4..=5 => "proc",
             6 => "cargo",
@@ -293,6 +294,7 @@ fn main() {
         hist.hit(&format!("mode:{mode}"));
         let out_dir: Option<PathBuf> = match mode {
             "cargo" | "insrc" => None,
+            _ if forced == Some(2) => Some(PathBuf::from("out")),
             _ if forced.is_some() => None,
             _ => match rng.below(7) {
                 0 | 1 => None,
@@ -317,6 +319,8 @@ fn main() {
             N::Dir(vec![(b"..lalrpop".to_vec(), N::File(true))])
         } else if forced == Some(1) {
             N::File(true)
+        } else if forced == Some(2) {
+            N::Dir(vec![(b"g.lalrpop".to_vec(), N::File(true)), (b"g".to_vec(), N::Dir(vec![]))])
         } else if rng.chance(1, 25) && mode == "dir" {
             hist.hit("root:is-a-file");
             N::File(true)
@@ -410,7 +414,14 @@ fn main() {
                 }
             }
             collect(&tree, &mut vec![], &mut all);
-            let na = if forced.is_some() { 1 } else { 1 + rng.below(4) };
+            if forced == Some(2) {
+                // `src/g.lalrpop` then the directory `src/g`: both map to out/g.rs
+                args.push(PathBuf::from("src/g.lalrpop"));
+                args.push(PathBuf::from("src/g"));
+                bad.push(PathBuf::from("src/g"));
+                gone.push(PathBuf::from("src/g"));
+            }
+            let na = if forced == Some(2) { 0 } else if forced.is_some() { 1 } else { 1 + rng.below(4) };
             for _ in 0..na {
                 if forced.is_none() && (all.is_empty() || rng.chance(1, 10)) {
                     let odd = *rng.pick(&["src/..", ".", "missing.lalrpop", "nodir/x.lalrpop"]);
